@@ -81,7 +81,7 @@ def showRes (r : Res (Arr Nat)) : String :=
   match r with
   | .ok a => showRows a.decode
   | .err => "ERR:oob"
-  | .panic => "PANIC"
+  | .panic => "FAIL"
 
 def splitArrs (s : String) : Option (List (List Row)) :=
   if s = "-" then some [] else
@@ -194,7 +194,7 @@ def handle (toks : List String) : String :=
         -- the specification only says "error"; the model says which kind
         match models with
         | m :: _ =>
-          if models.all (· = m) ∧ (m = "PANIC" ∨ m = "ERR:oob") then m
+          if models.all (· = m) ∧ (m = "FAIL" ∨ m = "ERR:oob") then m
           else mismatch "take" (" / ".intercalate models) "error"
         | [] => "bad-op"
     | _, _, _ => "bad-op"
